@@ -678,13 +678,25 @@ func ruleC15Deferred(c *Checker) {
 		for _, ci := range callsTo(U, func(o *types.Func) bool { return isFunc(o, "os", "MkdirAll") || isFunc(o, "os", "Mkdir") }) {
 			mk = append(mk, ci.Block())
 		}
+		var creates []*ssa.BasicBlock
+		for _, ci := range callsTo(U, func(o *types.Func) bool { return isFunc(o, "os", "Create") || isFunc(o, "os", "OpenFile") }) {
+			creates = append(creates, ci.Block())
+		}
 		var disp []Edge
 		for _, e := range dirT {
+			owns := false
 			for _, b := range mk {
 				if blockDominates(e.To(), b) {
-					disp = append(disp, e)
-					break
+					owns = true
 				}
+			}
+			for _, b := range creates {
+				if blockDominates(e.To(), b) {
+					owns = false // a test that only sorts out links: files come this way too
+				}
+			}
+			if owns {
+				disp = append(disp, e)
 			}
 		}
 		dirT = disp
